@@ -475,6 +475,7 @@ package sizes
 // numbered in source order: 0 headers from rev-list, 1 trees, 2 commits,
 // 3 commit->tree naming, 4 tags, 5 roots.
 //@ func ScanRepositoryUsingGraph
+//@   option assume-pre A-ENUM-NAMESTYLE
 //@   requires nameStyle >= 0 && nameStyle <= 2
 //@   modifies everything
 //@   option assume-nopanic A-GIT-REVLIST
@@ -512,3 +513,30 @@ package sizes
 //@ property C01: ScanRepositoryUsingGraph ScanRepositoryUsingGraph$1$1 NewGraph (*Graph).HistorySize
 //@ property C10: ScanRepositoryUsingGraph ScanRepositoryUsingGraph$1$1
 //@ property C18: ScanRepositoryUsingGraph
+
+//@ func CollectReferences
+//@   modifies everything
+
+//@ func (*NameStyle).Set
+//@   modifies *n
+//@   ensures result == nil ==> *n >= 0 && *n <= 2
+//@   ensures result != nil ==> *n == old(*n)
+
+// ---------------------------------------------------------------- output.go: option values (C14)
+// Each Set overwrites the variable with a value that does not depend on the
+// old one, so of several options of one family the last one wins.
+//@ func (*Threshold).Set
+//@   modifies *t
+//@   call 0 strconv.ParseFloat as pf
+//@   ensures result == nil ==> same(*t, pf0) && pf1 == nil
+//@   ensures result != nil ==> same(*t, old(*t))
+
+//@ func (*thresholdFlagValue).Set
+//@   modifies v.b, *v.threshold
+//@   ensures result == nil && parseBoolK(keyof(s)) ==> same(*v.threshold, v.value)
+//@   ensures result == nil && !parseBoolK(keyof(s)) ==> same(*v.threshold, 1.0)
+//@   ensures result != nil ==> same(*v.threshold, old(*v.threshold))
+
+//@ lemma last_wins: forall a, b, c float64 :: same(ite(true, b, a), ite(true, b, c))
+
+//@ property C14: (*Threshold).Set (*thresholdFlagValue).Set (*NameStyle).Set lemma/last_wins
